@@ -361,8 +361,10 @@ class Hostile(Suite):
                     elif m == 5:
                         # hard link to an unknown / escaping name
                         st = gen.rand_stat(rng, bytes.fromhex(script[k]["stat"]["p"]) + b"~", False)
-                        st["mode"] = 0o644
-                        st["ln"] = hx(rng.choice([b"nonexistent", b"../../outside/f", b"/outside/f", b"..", b"zzz"]))
+                        # regular, or a special file type carrying a link name (fifo / char device / block device / socket bit)
+                        st["mode"] = rng.choice([0o644, 0o644, (1 << 25) | 0o644, (1 << 26) | (1 << 21) | 0o600, (1 << 26) | 0o600, (1 << 24) | 0o644])
+                        st["size"] = 0
+                        st["ln"] = hx(rng.choice([b"nonexistent", b"../../outside/f", b"/outside/f", b"..", b"zzz", b"../sib/h", b"../../sent"]))
                         script.insert(k + 1, {"t": "STAT", "stat": st})
                     elif m == 6:
                         # DATA for an id that can never be requested (a directory's index / beyond the sequence)
